@@ -594,6 +594,32 @@ def z6(spec):
     prob.model.connect("loads", "wing.loads")
     if s["struct_weight_relief"]:
         prob.model.connect("load_factor", "wing.load_factor")
+    extra_of, extra_in = [], []
+    if spec.get("extras"):
+        # stand-alone constraint / bookkeeping components that no group adds by itself, wired as the docs describe
+        from openaerostruct.structures.energy import Energy
+        from openaerostruct.structures.spar_within_wing import SparWithinWing
+        from openaerostruct.geometry.monotonic_constraint import MonotonicConstraint
+        from openaerostruct.integration.multipoint_comps import MultiCD
+
+        prob.model.add_subsystem("energy", Energy(surface=s))
+        prob.model.connect("wing.disp", "energy.disp")
+        prob.model.connect("loads", "energy.loads")
+        prob.model.add_subsystem("spar_in_wing", SparWithinWing(surface=s))
+        prob.model.connect("wing.mesh", "spar_in_wing.mesh")
+        prob.model.connect("wing.radius", "spar_in_wing.radius")
+        prob.model.connect("wing.t_over_c", "spar_in_wing.t_over_c")
+        prob.model.add_subsystem("mono", MonotonicConstraint(var_name="thickness", surface=s))
+        prob.model.connect("wing.thickness", "mono.thickness", src_indices=list(range(nyh - 1)) + [nyh - 2], flat_src_indices=True)
+        ivc2 = om.IndepVarComp()
+        ivc2.add_output("cd0", val=0.02)
+        ivc2.add_output("cd1", val=0.03)
+        prob.model.add_subsystem("cds", ivc2, promotes=["*"])
+        prob.model.add_subsystem("multi_cd", MultiCD(n_points=2))
+        prob.model.connect("cd0", "multi_cd.0_CD")
+        prob.model.connect("cd1", "multi_cd.1_CD")
+        extra_of = ["energy.energy", "spar_in_wing.spar_within_wing", "mono.monotonic_thickness", "multi_cd.CD"]
+        extra_in = [Inp("cd0", 0.02, "rel", -0.5, 0.5), Inp("cd1", 0.03, "rel", -0.5, 0.5)]
     driver = dict(
         dvs=[("wing.thickness_cp", 0.01, 0.5, 1e2)],
         cons=[("wing.failure", "upper", 0.0), ("wing.thickness_intersects", "upper", 0.0)],
@@ -608,7 +634,8 @@ def z6(spec):
         Inp("wing.thickness_cp", np.array([0.05, 0.1, 0.15]), "rel", -0.3, 0.5, special=[0.004, 0.002, 0.5]),
         Inp("wing.geometry.t_over_c_cp", np.array([0.15]), "rel", -0.2, 0.2),
     ]
-    of = ["wing.failure", "wing.structural_mass", "wing.vonmises", "wing.disp", "wing.thickness_intersects"]
+    inputs = inputs + extra_in
+    of = ["wing.failure", "wing.structural_mass", "wing.vonmises", "wing.disp", "wing.thickness_intersects"] + extra_of
     return Model(spec, prob, inputs, of, [i.name for i in inputs], [s, md], driver=driver)
 
 
@@ -1308,6 +1335,7 @@ def variants():
         {"zoo": "Z6"},
         {"zoo": "Z6", "exact": True},
         {"zoo": "Z6", "relief": True},
+        {"zoo": "Z6", "extras": True},
         {"zoo": "Z7"},
         {"zoo": "Z7", "exact": True},
         {"zoo": "Z8"},
